@@ -68,6 +68,22 @@ def c20(ctx):
         got = {d for d in callees(F, fn) if d.split("::")[0] in ("cli", "exec", "frontend", "linter", "analysis") and "Error" not in d and not d.startswith("cli::cli_output")}
         ok = want <= got and not (got - want - {"cli::cli_output::CLIOutput::empty"})
         rep.ob("C20.R1", "calls::" + path, ok, "" if ok else "%s calls %s; the wiring is %s" % (path, sorted(got), sorted(want)), fn.loc(), how=str(sorted(want)))
+    pf = F.fn("cli::parser::prettify")
+    if pf is None:
+        rep.fail("C20.R1", "anchor::prettify", "cli::parser::prettify not found")
+    else:
+        rep.analysed(pf)
+        dbg = [bi for bi, t in pf.calls() if (callee_def(t) or "").endswith("::new_debug") and "frontend::ast::Program" in (t["callee"].get("inst") or "")
+               and any(d == ("param", 1) for d, _ in origins(pf, t["args"][0]))]
+        outs = [bi for bi, t in pf.calls() if (callee_def(t) or "").startswith("cli::cli_output::CLIOutput::")]
+        ok, why = True, ""
+        if len(dbg) == 1 and common.path_to_return_avoiding(pf, dbg, through_errors=True):
+            ok, why = False, "for some programs `rrss parse` does not print the Debug rendering of the tree (a path through prettify avoids it)"
+        elif len(dbg) != 1 or len(outs) != 1:
+            ok, why = False, "expected one Debug rendering of the program and one CLIOutput constructor, found %d / %d" % (len(dbg), len(outs))
+        elif not common.flows_into(pf, dbg[0], pf.term(outs[0])["args"][0]):
+            ok, why = False, "what prettify hands to CLIOutput is not the Debug rendering of the program"
+        rep.ob("C20.R1", "parse-prints-the-tree-for-every-program", ok, why, pf.loc(), how="CLIOutput::one_str(format!(\"{:#?}\\n\", program)) on every path")
     ex = F.fn("exec::exec")
     eu = F.fn("exec::exec_using")
     if ex is None or eu is None:
